@@ -27,7 +27,8 @@ Section R.
   Proof.
     intros Hc Hfit. pose proof (fits_mono _ _ _ _ Hfit) as Hfit0. pose proof (fits_nil_64 _ _ _ Hfit0) as Hf0.
     assert (H64 : 51 + w_dpad o < two64) by (unfold two63, two64 in *; lia).
-    destruct Hpar as [Hhdr [r0 Hprag] Hmaxh Hmaxh0 Hcid].
+    destruct Hpar as [Hhdr [r0 Hprag] Hmaxh Hcid].
+    assert (Hp10 : 10 <= w_maxh o) by (pose proof (hdr_ge_10 nilroots roots); unfold ResumeInv.hdr in *; lia).
     unfold resume, ResumeInv.live_file, ResumeInv.base_file.
     destruct (w_v1 o) eqn:Ev.
     - cbn [app]. rewrite <- !app_assoc.
@@ -40,8 +41,8 @@ Section R.
       rewrite drop_0.
       rewrite <- hdr_len_nil with (nilroots := nilroots). reflexivity.
     - unfold v2_prefix. rewrite pragma_is_ld at 1. rewrite <- !app_assoc.
-      rewrite (read_header_ld hdrdec default_maxh pragma_body r0 2) by
-        (try exact Hprag; rewrite blen_pragma_body; unfold default_maxh, two63; lia).
+      rewrite (read_header_ld hdrdec (w_maxh o) pragma_body r0 2) by
+        (try exact Hprag; rewrite blen_pragma_body; try exact Hp10; unfold two63; lia).
       cbn [N.eqb Pos.eqb andb orb negb].
       rewrite data_base_v2 by assumption.
       rewrite (drop_app_len pragma_size pragma) by reflexivity.
@@ -109,14 +110,15 @@ Section R.
     intros Hfit0 Hm. pose proof (fits_nil_64 _ _ _ Hfit0) as Hf0.
     assert (H64 : 51 + w_dpad o < two64) by (unfold two63, two64 in *; lia).
     pose proof (hdr_lt63 o nilroots roots Hfit0) as H63.
-    destruct Hpar as [Hhdr [r0 Hprag] Hmaxh Hmaxh0 Hcid].
+    destruct Hpar as [Hhdr [r0 Hprag] Hmaxh Hcid].
+    assert (Hp10 : 10 <= w_maxh o) by (pose proof (hdr_ge_10 nilroots roots); unfold ResumeInv.hdr in *; lia).
     unfold resume_checks. unfold ResumeInv.base_file in *. destruct (w_v1 o) eqn:Ev.
-    - cbn [app] in *. destruct (read_header_torn hdrdec default_maxh hdr m H63 Hm) as (e & He).
+    - cbn [app] in *. destruct (read_header_torn hdrdec (w_maxh o) hdr m H63 Hm) as (e & He).
       exists e. rewrite He. reflexivity.
     - unfold v2_prefix in *. rewrite <- app_assoc in *. rewrite !blen_app, blen_pragma, blen_zerosN in Hm.
       destruct (m <? 11) eqn:E11.
       + (* inside the pragma *)
-        destruct (read_header_torn hdrdec default_maxh pragma_body m) as (e & He);
+        destruct (read_header_torn hdrdec (w_maxh o) pragma_body m) as (e & He);
           [rewrite blen_pragma_body; unfold two63; lia|rewrite <- pragma_is_ld, blen_pragma; lia|].
         exists e.
         rewrite take_app_le by (rewrite blen_pragma; lia).
@@ -128,8 +130,8 @@ Section R.
         eexists.
         rewrite take_app_ge by (rewrite blen_pragma; lia). rewrite blen_pragma.
         rewrite pragma_is_ld at 1.
-        rewrite (read_header_ld hdrdec default_maxh pragma_body r0 2) by
-          (try exact Hprag; rewrite blen_pragma_body; unfold default_maxh, two63; lia).
+        rewrite (read_header_ld hdrdec (w_maxh o) pragma_body r0 2) by
+          (try exact Hprag; rewrite blen_pragma_body; try exact Hp10; unfold two63; lia).
         cbn [N.eqb Pos.eqb andb orb negb].
         rewrite (drop_app_len pragma_size pragma) by reflexivity.
         rewrite data_base_v2 by assumption.
@@ -192,7 +194,7 @@ Lemma resume_dev_ok hdrdec k ct o roots file faults s :
   resume hdrdec k ct o roots file faults = inl s -> dev_ok file (ws_dev s).
 Proof.
   unfold resume.
-  destruct (read_header hdrdec default_maxh file) as [[[[r ver] rest] n]|e0]; [|discriminate].
+  destruct (read_header hdrdec (w_maxh o) file) as [[[[r ver] rest] n]|e0]; [|discriminate].
   destruct (negb (((ver =? 1) && w_v1 o) || ((ver =? 2) && negb (w_v1 o)))); [discriminate|].
   destruct (if w_v1 o then Ok None
             else if negb ct then Err EOther
